@@ -101,8 +101,20 @@ func runC20(c *Ctx) {
 						if len(w.Viol) > 0 {
 							return
 						}
-						for _, term := range []string{"collect", "assign", "one"} {
-							got, err := w.terminal(s, term)
+						for _, term := range []string{"collect", "assign", "one", "and-collect", "and-unindexed-collect"} {
+							var got []string
+							var err error
+							switch term {
+							case "and-collect":
+								// refine the kept value on an indexed field with a comparison every object satisfies
+								objs, cerr := s.And("A", ">=", int(-9223372036854775808)).Collect()
+								got, err = seqOf(objs), cerr
+							case "and-unindexed-collect":
+								objs, cerr := s.And("P", ">=", int(-1)).Collect()
+								got, err = seqOf(objs), cerr
+							default:
+								got, err = w.terminal(s, term)
+							}
 							seen := map[string]bool{}
 							for _, u := range got {
 								if !matched[u] {
@@ -115,7 +127,7 @@ func runC20(c *Ctx) {
 								}
 								seen[u] = true
 							}
-							if err == nil && term != "one" {
+							if err == nil && (term == "collect" || term == "assign") {
 								// without an error, every member that still exists must be there
 								for u := range matched {
 									if _, alive := w.M.Objs[u]; alive && !seen[u] {
